@@ -203,8 +203,14 @@ func Derive(c *Case, base RefSet, name string) RefSet {
 		return GenRefSet(c, name, false)
 	}
 	out := RefSet{}
-	for k, ivs := range RefNorm(base) {
-		for _, iv := range ivs {
+	nb := RefNorm(base)
+	var keys []string
+	for k := range nb {
+		keys = append(keys, k)
+	}
+	sort.Strings(keys) // draws must not depend on map iteration order
+	for _, k := range keys {
+		for _, iv := range nb[k] {
 			lo, hi := iv.Lo, iv.Hi
 			if strings.Contains(mode, "drop") && c.Src.Int(name+".dropwhat", 0, 2) == 0 {
 				switch c.Src.Pick(name+".drop", "all", "head", "tail", "middle") {
@@ -232,7 +238,7 @@ func Derive(c *Case, base RefSet, name string) RefSet {
 	}
 	if strings.Contains(mode, "extend") && c.Src.Bool(name+".newkey") {
 		for k, v := range GenRefSet(c, name+".extra", false) {
-			out[k] = append(out[k], v...)
+			out[k] = append(out[k], v...) // no draws inside this loop
 		}
 	}
 	return out
